@@ -169,6 +169,8 @@ func runC06(c *Ctx, r *Report) {
 		}
 		r.Floor("C06.R4", 20)
 	}
+	r.Rule("C11.R8", "(shared with C11) a locally built BigArray is boxed as a program value only in object.NewArray, which tests the length: a short array made any other way shares its storage with its source")
+	c.checkBigArrayOnlyFromNewArray(r, "C11.R8")
 	c.checkSiblingSwitches(r, "C06.R2", "array")
 	c.checkSiblingSwitches(r, "C06.R2", "map")
 	r.Floor("C06.R2", 6)
